@@ -6,7 +6,8 @@ from vf import gen, schema
 PROP = 'C14'
 STEP_KINDS = ['rewrite', 'assign-value', 'assign-units', 'rename', 'origin-ref', 'cast-dtype', 'add-objects',
               'add-nf-data', 'other-window', 'other-chunks', 'other-data', 'other-data-dtype', 'other-data-width', 'foreign-same-names', 'foreign-colliding-values',
-              'hc-mode-around', 'param-values', 'clear-channel-units', 'change-channel-units', 'assign-other-kind']
+              'hc-mode-around', 'param-values', 'clear-channel-units', 'change-channel-units', 'assign-other-kind',
+              'rename-then-reuse-name', 'rejected-add-then-same-name']
 META = {
     'level': 'exploration',
     'rule': ('one evaluation = one history (foreign files built and written, the target file built, written, mutated and '
@@ -123,7 +124,9 @@ def make_phase(r, kind, ops_so_far, base, avoid):
         ph['ops'].append({'op': 'assign', 'target': i, 'target_op': 'channel', 'kw': 'units', 'part': 'value',
                           'value': None if kind.startswith('clear') else r.choice(['ft', 'K', 'Pa'])})
     elif kind == 'assign-other-kind':
-        byname = {o['name']: i for i, o in objs}
+        byname = {}
+        for i, o in objs:
+            byname.setdefault(o['name'], i)       # (the fixture, not a later object that was given its former name)
         which = r.choice(['param', 'param-ln', 'zone', 'axis', 'chan-ln'])
         if which == 'param':
             cur = ops_so_far[byname['K-PARAM']]['attrs']['values'][0]
@@ -149,6 +152,32 @@ def make_phase(r, kind, ops_so_far, base, avoid):
             cands = [(i, o) for i, o in objs if o['op'] in ('frame', 'no_format', 'zone', 'axis')] or cands
         i, o = r.choice(cands)
         ph['ops'].append({'op': 'setattr', 'target': i, 'field': 'name', 'value': 'RENAMED-%d' % i})
+    elif kind == 'rename-then-reuse-name':
+        # an object gets another name, then its former name is given to a new object of the same type and set; the final
+        # specification (what the fresh interpreter builds) simply has the two objects under their final names
+        def unique(i, o):
+            return sum(1 for _, q in objs if q['op'] == o['op'] and q['name'] == o['name']) == 1
+        cands = [(i, o) for i, o in objs if o['op'] not in ('origin', 'channel', 'frame') and unique(i, o)
+                 and not any(q['op'] == 'setattr' and q.get('target') == i for q in ops_so_far)]
+        if cands:
+            i, o = r.choice(cands)
+            ph['ops'].append({'op': 'setattr', 'target': i, 'field': 'name', 'value': 'FORMERLY-%d' % i, 'fold': True})
+            new = {'op': o['op'], 'name': o['name'], 'attrs': {}, 'lf': o.get('lf', 0)}
+            if o.get('set_name') is not None:
+                new['set_name'] = o['set_name']
+            if o.get('origin_reference') is not None and not isinstance(o['origin_reference'], dict):
+                new['origin_reference'] = o['origin_reference']
+            ph['ops'].append(new)
+    elif kind == 'rejected-add-then-same-name':
+        # a call the library rejects (after it has started creating the object), then a valid call with the same name
+        t = r.choice(['zone', 'equipment', 'parameter', 'comment', 'axis', 'long_name', 'tool'])
+        bad = {'zone': {'domain': 'NOT-A-DOMAIN'}, 'equipment': {'status': 7}, 'parameter': {'values': [1.5], 'zones': ['not a zone']},
+               'comment': {'text': 5}, 'axis': {'spacing': 'x'}, 'long_name': {'quantity': 5}, 'tool': {'status': 9}}[t]
+        n0 = len(ops_so_far)
+        nm = f'TWICE{n0}'
+        for _ in range(r.choice([1, 2])):
+            ph['ops'].append({'op': t, 'name': nm, 'attrs': bad, 'expect': 'reject', 'fold': True})
+        ph['ops'].append({'op': t, 'name': nm, 'attrs': {}})
     elif kind == 'origin-ref':
         origins = [i for i, o in objs if o['op'] == 'origin']
         i, o = r.choice([(i, o) for i, o in objs if o['op'] != 'origin'])
@@ -243,6 +272,14 @@ def run_case(case):
             except KeyError:
                 pass
     wout, data, outcomes, log = history.run_history(hist)
+    all_ops = list(base['ops']) + [o for ph in hist['phases'] for o in ph.get('ops', [])]
+    for i, o in enumerate(all_ops):
+        if o.get('expect') == 'reject' and o.get('fold') and i < len(outcomes) and outcomes[i][0] == 'ok':
+            # the call meant to be rejected was accepted: it IS part of the specification then; nothing to compare
+            bump('not-rejected:' + o['op'])
+            return {'evals': 0, 'violations': [], 'obs': obs, 'sigs': [], 'sample': None}
+        if o.get('expect') == 'reject' and o.get('fold'):
+            bump('rejected-call-folded-away')
     fsp = history.final_spec(hist)
     fw, fdata, foutcomes = history.run_fresh(fsp)
     bump('compared')
